@@ -222,7 +222,6 @@ func wireHandshake(run *vh.Run) {
 	savedGenesis := chain.Genesis
 	defer func() { chain.Genesis = savedGenesis }()
 
-	candidates := map[string]int{}
 	for i := 0; i < run.Pick(1500, 12000); i++ {
 		w := worlds[rng.Intn(len(worlds))]
 		if i < 2*len(worlds) {
@@ -535,12 +534,10 @@ func wireHandshake(run *vh.Run) {
 		}
 		if what != "" {
 			if negotiated == 31 || negotiated == 32 {
-				// candidate (reported to the lead, counted until it is decided): the legacy protocol versions
-				cls := fmt.Sprintf("candidate:C18-legacy-handshake-v0%d:%s", negotiated, strings.TrimPrefix(what, "handshake succeeded with a peer "))
-				run.Count(cls)
-				if candidates[cls]++; candidates[cls] == 1 {
-					run.Sample(fmt.Sprintf("%s | %s | field=%s world=%s", cls, op, field, w.name))
-				}
+				// known finding C18-legacy-handshake-0.3.x: protocol 0.3.1 compares no genesis hash, 0.3.1/0.3.2 compare the
+				// chain id with the genesis-era identifier instead of the one at the peer's height
+				run.Count(fmt.Sprintf("known:C18-legacy-handshake-0.3.x:v0%d:%s", negotiated, strings.TrimPrefix(what, "handshake succeeded with a peer ")))
+				run.FailKnown(what+fmt.Sprintf(" (p2p protocol version 0.3.%d)", negotiated%10), "C18-legacy-handshake-0.3.x", replay)
 				continue
 			}
 			run.Fail(what, replay)
